@@ -54,6 +54,15 @@ def make_F(F, nm, fshape='list-set'):
         return tuple(sets)
     if fshape == 'tuple-frozenset':
         return tuple(frozenset(P) for P in sets)
+    if fshape == 'list-set-out':
+        # elements that are not states of K are legal members of a fairness set (never visited)
+        return [set(P) | set(['not-a-state', ('out', 1)]) for P in sets]
+    if fshape == 'set-frozenset':
+        return set(frozenset(P) for P in sets)
+    if fshape == 'dict-values':
+        return dict((i, P) for i, P in enumerate(sets)).values()
+    if fshape == 'list-set-dup':
+        return sets + [set(P) for P in sets[:1]]
     return sets
 
 
